@@ -346,7 +346,7 @@ class C18(Check):
         if len(m.recs) == 0:
             return True
         A = np.array([r.cur for r in m.recs])
-        return bool(np.any(A.max(axis=0) == A.min(axis=0)))
+        return bool(np.any(A.max(axis=0) - A.min(axis=0) <= 1e-9 * (1.0 + np.abs(A.max(axis=0)) + np.abs(A.min(axis=0)))))
 
     def adopt(self, pool, parts, m):
         for p in parts:
@@ -383,7 +383,7 @@ class C18(Check):
             X, y = self.snapshot(ds)
             for d in range(dim):
                 col = X[:, d]
-                if mx[d] > mn[d]:
+                if mx[d] - mn[d] > 1e-9 * (1.0 + abs(mx[d]) + abs(mn[d])):    # a spread of rounding noise only counts as degenerate
                     if abs(col.min() - lo) > TOL * 10 or abs(col.max() - hi) > TOL * 10:
                         ctx.violate("scale_maps_extremes_to_range", sig, "scale_range((%r,%r)): dimension %d spans [%r,%r]" % (lo, hi, d, col.min(), col.max()))
                     exp = lo + (A[:, d] - mn[d]) * (hi - lo) / (mx[d] - mn[d])
